@@ -20,6 +20,7 @@ ASSUMPTIONS = ["OPN2_WritePan is called with channel < 6 (OPN2::setPan passes th
 
 CHECKS = ["--bounds-check", "--pointer-check", "--pointer-primitive-check", "--div-by-zero-check", "--no-malloc-may-fail",
           "--no-undefined-shift-check", "--no-signed-overflow-check"]
+EXTRA_NAMES = ["nuked_no_mutable_static_objects"]
 REGW = "OPN2_DoRegWrite.0:9,OPN2_DoRegWrite.1:5,OPN2_DoRegWrite.2:9"
 
 
@@ -40,8 +41,8 @@ def groups(tier):
           note="whole chip clock with its sub-functions inlined; the three constant-bound loops of OPN2_DoRegWrite unwound completely (unwinding assertions)"),
         G("OPN2_Write"),
         G("OPN2_WritePan"),
-        G("OPN2_WriteBuffered", replace=["OPN2_Clock", "OPN2_Write"], loops=True, required=[r"assigns", r"postcondition", r"loop_invariant_step"]),
-        G("OPN2_Generate", replace=["OPN2_Clock", "OPN2_Write"], loops=True, required=[r"assigns", r"postcondition", r"loop_invariant_step", r"loop_decreases|decreases"]),
+        G("OPN2_WriteBuffered", replace=["OPN2_Clock", "OPN2_Write"], loops=True, defines=["NUKED_TYPED_ENV"], required=[r"assigns", r"postcondition", r"loop_invariant_step"]),
+        G("OPN2_Generate", replace=["OPN2_Clock", "OPN2_Write"], loops=True, defines=["NUKED_TYPED_ENV"], required=[r"assigns", r"postcondition", r"loop_invariant_step", r"loop_decreases|decreases"]),
         G("OPN2_Reset", pre_unwindset="OPN2_Reset.0:25,OPN2_Reset.1:7", note="establishes the invariant from arbitrary memory"),
         G("OPN2_SetMute", pre_unwindset="OPN2_SetMute.0:8"),
         G("OPN2_SetChipType", required=[r"postcondition"]),
